@@ -643,7 +643,7 @@ func cmdSpecBytes() {
 			panic(fmt.Sprintf("specbytes case %q: %v", c.name, err))
 		}
 		checkSpecCase(c, in)
-		rec := J{"id": "sb" + itoa(i+1), "name": c.name, "version": int(c.version), "bytes": hex.EncodeToString(in), "expect_error": c.expect == nil}
+		rec := J{"id": "sb" + itoa(i+1), "name": c.name, "version": int(c.version), "bytes": hex.EncodeToString(in), "expect_error": c.expect == nil, "header_clause": c.expect == nil && isHeaderCase(c.name)}
 		f, consumed, outcome, why := decodeFrame(codec, in)
 		rec["decode"] = outcome
 		rec["consumed"] = consumed
@@ -665,4 +665,11 @@ func cmdSpecBytes() {
 		}
 		hlib.Emit(rec)
 	}
+}
+
+// isHeaderCase: the expected refusal is the rejection clause of C02 (unsupported version, unknown opcode, direction bit against
+// the opcode); every other expected refusal concerns the body, where the statement only speaks of bytes the specification defines.
+func isHeaderCase(name string) bool {
+	return strings.HasPrefix(name, "version ") || strings.Contains(name, "marked as") || strings.Contains(name, "opcode 0x") ||
+		strings.Contains(name, "header with")
 }
